@@ -64,7 +64,7 @@ CLAIMED["C05"] = (
     "parse_print_logrange_partial ({selector} pipeline [range] offset), log_query_parse and range_agg_parse (whole queries through parse_tokens = logql.Parse after tokenizing: every log query over the fragment, and every "
     "count_over_time / rate / bytes_over_time / bytes_rate / absent_over_time over such a log range, denotes exactly its structure), vec_agg_parse (sum/avg/count/max/min/stddev/stdvar by|without (labels) over such a range "
     "aggregation), unwrap_agg_parse (range aggregations over `| unwrap l` / `| unwrap bytes(l)` with range, offset and optional grouping), seven static-rule theorems about validate(). "
-    "The lexer is modelled too (Model/Lexer.v: text/scanner on a fragment, ScanUnit, keyword table and function look-ahead generated from token.go) and compared with lexer.Tokenize on every run (part `lexer`); theorems lex_layout / lex_layout_insignificant: tokens (identifiers, keywords, function keywords followed by an opening parenthesis, operators, strings) separated by any non-empty white space lex to exactly those tokens, so the layout between tokens is insignificant; lexer and parser composed (Proofs/LexParseP.v): lex_tokens (lexable parser tokens written with any white space lex back to themselves), selector_text_parse (selector TEXT -> matchers) log_query_text_parse (TEXT of a whole log query over the pipeline fragment -> ELog selector stages through parse_tokens), range_agg_text_parse and vec_agg_text_parse (TEXT of op({..} stages [5m] offset 1h) and of sum by (a, b) (op(..)) -> their trees; durations as digits and one unit); lex_layout_tight (Proofs/LexerTightP.v): white space is needed only where two tokens would run together, all text theorems hold for such layouts, e.g. {app=\"x\"}|=\"err\"|json. "
+    "The lexer is modelled too (Model/Lexer.v: text/scanner on a fragment, ScanUnit, keyword table and function look-ahead generated from token.go) and compared with lexer.Tokenize on every run (part `lexer`); theorems lex_layout / lex_layout_insignificant: tokens (identifiers, keywords, function keywords followed by an opening parenthesis, operators, strings) separated by any non-empty white space lex to exactly those tokens, so the layout between tokens is insignificant; lexer and parser composed (Proofs/LexParseP.v): lex_tokens (lexable parser tokens written with any white space lex back to themselves), selector_text_parse (selector TEXT -> matchers) log_query_text_parse (TEXT of a whole log query over the pipeline fragment -> ELog selector stages through parse_tokens), range_agg_text_parse, vec_agg_text_parse and unwrap_agg_text_parse (TEXT of op({..} stages [5m] offset 1h), of sum by (a, b) (op(..)) and of op({..} | unwrap conv(n) [5m]) by (a) -> their trees; durations as digits and one unit); lex_layout_content (separators - white space and # comments - and the quoting style of strings, \"..\" or raw, do not change the token sequence); lex_layout_tight (Proofs/LexerTightP.v): white space is needed only where two tokens would run together, all text theorems hold for such layouts, e.g. {app=\"x\"}|=\"err\"|json. "
     "PARTIAL: parse(print c)=abs c for the rest of the grammar (extraction expressions, regexp stage, label filters, unwrap post-filters, quantile parameter, topk/sort, binary operations, label_replace) and parse soundness are not theorems yet; the lexer model covers a fragment of text/scanner (inputs outside it are judged on the implementation's answer); its layout theorem does not yet cover numbers, quantities, raw strings, comments and function keywords; the model parser consumes Go's token list.",
     "Trusted: Coq kernel + vm_compute; tools/gentables.py (regex-level translator of token.go/op.go tables into Model/Tables.v); per-token library results (ParseFloat, Atoi, durations, bytes, regexp.Compile) recorded by the harness "
     "and passed to the model as oracle fields; generator's notion of the denoted tree (tools/qgen.py).",
